@@ -14,6 +14,7 @@ mod httpstore;
 mod store;
 mod timeunit;
 mod udpcodec;
+mod udpconc;
 mod udpnet;
 mod udpstats;
 mod validator;
@@ -104,6 +105,7 @@ fn main() {
         "udpnet" => udpnet::run(&mut out, seed, cases, &replay, arg(&args, "--uring-resp-buf", 2048)),
         "udpstats" => udpstats::run(&mut out, seed, cases, maxops, &replay),
         "rawbytes" => rawbytes::run(&mut out, seed, cases, &replay),
+        "udpconc" => udpconc::run(&mut out, seed, cases, arg(&args, "--schedules", 300), &replay),
         "udpcodec" => udpcodec::run(&mut out, seed, cases, &replay),
         "wsjson" => wsjson::run(&mut out, seed, cases, &replay),
         "wsnet" => wsnet::run(&mut out, seed, cases, &replay, arg(&args, "--burst", 40)),
